@@ -403,11 +403,20 @@ Fixpoint parse_fields (lines : list bytes) (acc : list (bytes * bytes)) : res (l
     end
   end.
 
-Fixpoint get_header (name : bytes) (hs : list (bytes * bytes)) : option bytes :=
+(* HeadersDictProxy.get(name): all values whose name matches case-insensitively, joined by ", " *)
+Fixpoint get_all (name : bytes) (hs : list (bytes * bytes)) : list bytes :=
   match hs with
-  | [] => None
-  | (k, v) :: hs' => if ieqb k name then Some v else get_header name hs'
+  | [] => []
+  | (k, v) :: hs' => if ieqb k name then v :: get_all name hs' else get_all name hs'
   end.
+Fixpoint join_comma (vs : list bytes) : bytes :=
+  match vs with
+  | [] => []
+  | [v] => v
+  | v :: r => v ++ [44; 32] ++ join_comma r
+  end.
+Definition get_header (name : bytes) (hs : list (bytes * bytes)) : option bytes :=
+  match get_all name hs with [] => None | vs => Some (join_comma vs) end.
 
 Definition h_content_length : bytes := [99;111;110;116;101;110;116;45;108;101;110;103;116;104].
 Definition h_content_type : bytes := [99;111;110;116;101;110;116;45;116;121;112;101].
